@@ -233,7 +233,19 @@ func genAlertPlan(r *rand.Rand, quick bool) *plan.Plan {
 			inc.Ops = append(inc.Ops, plan.Op{Kind: "alert_state", Name: specs[i].Name})
 		}
 	}
+	// one history in three edits the first alert in mid-run (same condition, new message): the handler writes a
+	// "config modified" history row and re-registers the job, and the alert has to hold its condition for a
+	// whole window again before it fires
+	updAt := -1
+	if r.IntN(3) == 0 {
+		updAt = 1 + r.IntN(minutes-1)
+	}
 	for m := 0; m < minutes; m++ {
+		if m == updAt && !restarts[m] {
+			a := &specs[0]
+			inc.Ops = append(inc.Ops, plan.Op{Kind: "advance", DurMs: int64(1000 + r.IntN(8000))}, plan.Op{Kind: "alert_update", Name: a.Name, Index: "al", Args: map[string]any{
+				"eval_for": a.Window, "eval_interval": a.Interval, "condition": a.Cond, "value": a.Value, "query": alertShapes[a.Shape].text, "message": "alert " + a.Name + " v2"}})
+		}
 		if m == failAt {
 			inc.Ops = append(inc.Ops, plan.Op{Kind: "fail_deliveries", Args: map[string]any{"n": 1 + r.IntN(3)}})
 		}
@@ -304,6 +316,7 @@ func alertsOracle(prop string, res *RunResult) []Violation {
 	type span struct{ from, to int64 } // incarnation life in fake time
 	var spans []span
 	created := map[string]int64{}
+	updated := map[string][]int64{} // instants of accepted updates per alert
 	type failRule struct {
 		at int64
 		n  int
@@ -366,6 +379,12 @@ func alertsOracle(prop string, res *RunResult) []Violation {
 					continue
 				}
 				created[op.Name] = e.SimMs
+			case "alert_update":
+				if e.Err != "" {
+					vs = append(vs, Violation{Sig: prop + ":alerts:update-failed", Msg: where + ": " + e.Err})
+					continue
+				}
+				updated[op.Name] = append(updated[op.Name], e.SimMs)
 			case "fail_deliveries":
 				n := 0
 				if v, ok := op.Args["n"].(float64); ok {
@@ -398,8 +417,14 @@ func alertsOracle(prop string, res *RunResult) []Violation {
 					if rd.State != rd.History[n-1].State {
 						vs = append(vs, Violation{Sig: prop + ":alerts:state-differs-from-last-evaluation", Msg: fmt.Sprintf("%s: alert %s reads state %d but its latest history row says %d", where, op.Name, rd.State, rd.History[n-1].State)})
 					}
-					if rd.NumEval != n {
-						vs = append(vs, Violation{Sig: prop + ":alerts:evaluation-count-differs", Msg: fmt.Sprintf("%s: alert %s num_evaluations=%d, history rows=%d", where, op.Name, rd.NumEval, n)})
+					nEval := 0
+					for _, h := range rd.History {
+						if h.User == "System Generated" {
+							nEval++
+						}
+					}
+					if rd.NumEval != nEval {
+						vs = append(vs, Violation{Sig: prop + ":alerts:evaluation-count-differs", Msg: fmt.Sprintf("%s: alert %s num_evaluations=%d, evaluation rows in its history=%d", where, op.Name, rd.NumEval, nEval)})
 					}
 				}
 				if prev := lastRead[op.Name]; prev != nil {
@@ -467,6 +492,13 @@ func alertsOracle(prop string, res *RunResult) []Violation {
 				continue
 			}
 			prev := rows[i-1]
+			if u := updateBetween(updated[name], prev.ms, h.ms); u > 0 {
+				// the job is registered anew by the update and evaluates at once
+				if d := h.ms - u; d < -1000 || d > 5000 {
+					vs = append(vs, Violation{Sig: prop + ":alerts:first-evaluation-after-update-off-schedule", Msg: fmt.Sprintf("alert %s updated at %d, next evaluation at %d", name, u, h.ms)})
+				}
+				continue
+			}
 			if incOf(prev.ms) == incOf(h.ms) {
 				if d := h.ms - prev.ms; d < iv-2000 || d > iv+2000 {
 					vs = append(vs, Violation{Sig: prop + ":alerts:evaluation-off-schedule", Msg: fmt.Sprintf("alert %s (interval %d min): evaluations %d and %d are %d ms apart", name, a.Interval, i-1, i, d)})
@@ -510,6 +542,11 @@ func alertsOracle(prop string, res *RunResult) []Violation {
 			}
 			if amb || undefined {
 				o = -1
+			}
+			if i > 0 && updateBetween(updated[name], rows[i-1].ms, h.ms) > 0 {
+				// a modified alert starts its window over: the edit stands in the sequence like an evaluation that
+				// did not hold
+				outcomes = append(outcomes, 0)
 			}
 			outcomes = append(outcomes, o)
 			// expected state from the last n outcomes
@@ -628,6 +665,16 @@ func stateName(s int) string {
 
 // expectedAlertState from the outcome sequence so far (the last element is the current evaluation).
 // Ambiguous outcomes (-1) make the expectation unsure unless they cannot matter.
+// updateBetween: the instant of an update of the alert in (after, upTo+1s], or 0.
+func updateBetween(us []int64, after, upTo int64) int64 {
+	for _, u := range us {
+		if u > after && u <= upTo+1000 {
+			return u
+		}
+	}
+	return 0
+}
+
 func expectedAlertState(outcomes []int, n int) (state int, unsure bool) {
 	cur := outcomes[len(outcomes)-1]
 	if cur == -1 {
